@@ -162,6 +162,10 @@ def r4(ctx):
                 for b, s, c in L.str_args(fn, ["PdfDictionary::get"]):
                     if s == key:
                         hit = (fn, b)
+            if hit is None and key in L.keys_read_deep(ctx.facts, fid):
+                # read through a helper that is handed the key as a literal
+                ctx.ok("R4", k, "read through a helper called by %s" % L.short(fid), fid)
+                continue
             if hit is None:
                 ctx.violation("R4", k, "DecodeParms key /%s (%s) is never read by %s" % (key, what, L.short(fid)), fid)
             else:
@@ -237,12 +241,7 @@ def r5(ctx):
                 ctx.violation("R5", key, "%s is given the constant %r as pixel stride instead of the value computed "
                               "from /Colors and /BitsPerComponent" % (callee, a[2]), fn.where(b))
                 continue
-            got = set()
-            for bb, cc in L.slice_calls(fn, FL.op_locals(a)):
-                if L.is_call_to(cc, ["PdfDictionary::get"]):
-                    s = L.resolve_str_operand(fn, fn.blocks[bb][1][2][1])
-                    if s:
-                        got.add(s)
+            got = L.dict_key_sources(ctx.facts, fn, FL.op_locals(a))
             # rounding after the product: packed sub-byte samples of several components share bytes, so
             # the stride is ceil(Colors*BitsPerComponent/8); rounding one factor first over-counts
             fl = FL.flow(fn)
